@@ -4,6 +4,7 @@
  * ranges.txt: one line per data page: rg col page body_off body_len first_row nrows */
 #include "rdchk.h"
 #include <zlib.h>
+#include <sys/mman.h>
 uint32_t carquet_crc32(const uint8_t*, size_t);
 uint32_t carquet_crc32_update(uint32_t, const uint8_t*, size_t);
 static vrng_t R;
@@ -23,6 +24,13 @@ static void crc_section(int scale) {
         if (len >= 2) { size_t c1 = vrng_below(&R, len), c2 = c1 + vrng_below(&R, len - c1); uint32_t x = carquet_crc32_update(0, p, c1); x = carquet_crc32_update(x, p + c1, c2 - c1); x = carquet_crc32_update(x, p + c2, len - c2); if (x != whole) v_viol("crc32:incremental-update-does-not-compose", "three-way len=%zu", len); }
         free(p); }
     for (int i = 0; i < (scale >= 2 ? 600 : 80); i++) { size_t len = vrng_below(&R, 1u << 20); uint8_t* p = v_exact(len); vrng_bytes(&R, p, len); uint32_t a = carquet_crc32(p, len), b = (uint32_t)crc32(0L, p, (uInt)len); v_case(v_hash(p, len < 128 ? len : 128, len)); if (a != b) v_viol("crc32:differs-from-zlib:large", "len=%zu", len); v_count("crc_large_inputs"); free(p); }
+    if (scale >= 2) { /* lengths that do not fit 32 bits: 4 GiB + 9 bytes in one call and split across update() calls (anonymous mapping, sparse non-zero content) */
+        size_t big = ((size_t)1 << 32) + 9; uint8_t* m = mmap(NULL, big, PROT_READ | PROT_WRITE, MAP_PRIVATE | MAP_ANONYMOUS | MAP_NORESERVE, -1, 0);
+        if (m != MAP_FAILED) { for (size_t q = 0; q < big; q += 4099) m[q] = (uint8_t)(q * 31 + 7); memcpy(m + big - 9, "123456789", 9);
+            uLong z = crc32(0L, Z_NULL, 0); for (size_t q = 0; q < big; q += (size_t)1 << 30) { size_t chunk = big - q < ((size_t)1 << 30) ? big - q : (size_t)1 << 30; z = crc32(z, m + q, (uInt)chunk); }
+            uint32_t a = carquet_crc32(m, big); v_case(v_hash("4GiB+9", 6, 1)); v_count("crc_inputs_of_4GiB_and_more"); if (a != (uint32_t)z) v_viol("crc32:differs-from-zlib:len>=4GiB", "len=%zu got=%08x want=%08x", big, a, (uint32_t)z);
+            uint32_t c1 = carquet_crc32(m, 100); uint32_t c2 = carquet_crc32_update(c1, m + 100, big - 100); if (c2 != (uint32_t)z) v_viol("crc32:update-composition:len>=4GiB", "crc(100) then update(%zu): got=%08x want=%08x", big - 100, c2, (uint32_t)z);
+            munmap(m, big); } else v_count("crc_4GiB_mapping_unavailable"); }
     v_sample("crc: every length 0..%zu x 16 alignments x {random,zeros,ones} against zlib crc32(); crc(a||b) = update(crc(a), b) at every split of strings up to %d bytes; random inputs to 1 MiB", maxlen, scale >= 2 ? 200 : 80);
 }
 
